@@ -49,7 +49,7 @@ PROPS = {
     "C05": dict(
         level_text="Model/PeerCore.v is an executable model of peer.handleMessage/handleEvent/maybeRequest/scheduleUpload/unchoke/expireRequests/sendPex with the request queue and bitmaps. Theorem c05_total: from ANY peer state, any message/command/tick under any oracle values ends in continue or disconnect, never a panic (the 'Requests is broken!' sites are unreachable); termination by structural recursion. Allocation proportionality and the exit path are checked on the implementation by the monitor (TotalAlloc per handled message) on every run. Tie: 300 (quick) random histories of 5-60 steps on a real peer.Peer driven through verif entry points; after every step verdict, messages, torrent events and a full state snapshot are compared with the model, the nondeterministic choices (pipelining depth, request expiry, AddData/ReadAt results, rate limiter) being found by search and checked to be allowed by the model.",
         level_note="Partial: c05_alloc_proportional is a monitor on the implementation (24x message size + 64 KiB; 838,861 B for a Have before metadata), not yet a theorem about the model's cost function; peer.Run's start-up and exit sequence (c05_exit_always_announced) is exercised by C17's harness, not modelled here. Trusted: Coq kernel+vm_compute, harness, verif hooks in peer/ (export_verif.go).",
-        harness="peercore", args=["-prop", "C05"], check_module="PeerCheck",
+        harness="peercore", args=["-prop", "C05"], check_module="PeerCheck", focus=True,
         n_quick=300, n_thorough=6000,
         trusted=COMMON_TRUST + ["verif entry points peer/export_verif.go, peer/requests/export_verif.go (add-only)",
                                 "time, rate estimators and the piece store are oracles of the model (values found by search, checked to be admissible)"],
@@ -58,7 +58,7 @@ PROPS = {
     "C11": dict(
         level_text="Theorems about the peer model: every Request added by maybeRequest, for any pipelining decision, comes from a scheduler-queued block, for a piece the peer advertised, sent while unchoked or allowed-fast (c11_requests_send_time); for every block of a well-formed geometry the computed index/offset/length are in range, aligned and exactly min(16 KiB, rest) (c11_request_fields, incl. the >4 GiB overflow fixed in fromChunk); outstanding requests never exceed max(2, reqq) (c11_pipeline_depth); PEX as a transition system with the remote's view as ghost state: never announce twice, never drop an unannounced address, every departure queued and drained in ceil(n/50) ticks (c11_pex_*), tied to sendPex by c11_pex_refines. Monitors on the implementation per step: request/cancel/have conformance against the peer's advertised state, no duplicates, queue depth, PEX deltas. Tie as for C05 (histories weighted towards requests, cancels, PEX).",
         level_note="Partial: the Cancel clause and the no-duplicate-outstanding clause are monitors on the implementation (not yet theorems); the initial Bitfield/HaveAll/HaveNone advertisement of peer.Run is checked by C17's real-connection harness. Trusted as C05.",
-        harness="peercore", args=["-prop", "C11"], check_module="PeerCheck",
+        harness="peercore", args=["-prop", "C11"], check_module="PeerCheck", focus=True,
         n_quick=300, n_thorough=6000,
         trusted=COMMON_TRUST + ["verif entry points in peer/ (add-only)", "time and rate estimators are oracles"],
         assumptions=["scheduler commands name existing blocks/pieces"],
@@ -66,7 +66,7 @@ PROPS = {
     "C16": dict(
         level_text="Theorem c16_invariant: in every state reachable from a fresh peer by any history of messages, commands, ticks, upload ticks, congestion and writer failure, under any oracle values: no upload request is pending while we choke the peer, the peer's contribution to the global unchoke counter equals its flag, at most 250 requests of at most 128 KiB each are queued. Theorem c16_piece_only_if: a Piece is written by the upload tick only for the oldest pending request of a peer we unchoke, at its index/offset, with exactly the bytes ReadAt returned. Tie as for C05 (histories weighted towards interested/request/cancel/choke/upload-tick), plus per-step monitors of the same predicates on the implementation.",
         level_note="That no handler other than the upload tick writes a Piece is checked by the monitor, not yet a theorem; ReadAt returning verified data is C01. Trusted as C05.",
-        harness="peercore", args=["-prop", "C16"], check_module="PeerCheck",
+        harness="peercore", args=["-prop", "C16"], check_module="PeerCheck", focus=True,
         n_quick=300, n_thorough=6000,
         trusted=COMMON_TRUST + ["verif entry points in peer/ (add-only)", "rate limiter and Pieces.ReadAt are oracles"],
         assumptions=[],
